@@ -83,9 +83,10 @@ impl Pattern {
         let pattern = pattern.trim_end_matches('$');
         let pattern = pattern.to_string();
 
-        let anchored_regex = "^".to_string() + &pattern + "$";
+        let grouped = Self::group_alternation(&pattern);
+        let anchored_regex = "^".to_string() + &grouped + "$";
         let anchored_regex = Regex::new(anchored_regex.as_str(), opts.case_insensitive);
-        let prefix_regex = "^".to_string() + &pattern;
+        let prefix_regex = "^".to_string() + &grouped;
         let prefix_regex = Regex::new(prefix_regex.as_str(), opts.case_insensitive);
 
         match anchored_regex {
@@ -99,6 +100,29 @@ impl Pattern {
                 cause: e.to_string(),
             }),
         }
+    }
+
+    /// Wraps a regex that is an alternation at the top level, e.g. `a|b`, in a group,
+    /// so that anything added before or after it applies to all the alternatives
+    /// and not only to the first or the last one: `^a|b$` means `(^a)|(b$)`.
+    fn group_alternation(regex: &str) -> String {
+        let mut depth = 0;
+        let mut in_class = false;
+        let mut escape = false;
+        for c in regex.chars() {
+            match c {
+                _ if escape => escape = false,
+                '\\' => escape = true,
+                ']' if in_class => in_class = false,
+                _ if in_class => {}
+                '[' => in_class = true,
+                '(' => depth += 1,
+                ')' => depth -= 1,
+                '|' if depth == 0 => return format!("(?:{regex})"),
+                _ => {}
+            }
+        }
+        regex.to_string()
     }
 
     /// Creates a `Pattern` that matches literal string. Case insensitive.
@@ -168,7 +192,7 @@ impl Pattern {
     /// and every path below it, i.e. the pattern ends with an unescaped `.*` (`**` in a glob)
     /// and it fully matches a prefix of the directory path
     pub fn matches_subtree(&self, dir_path: &str) -> bool {
-        let matches_any_suffix = match self.src.strip_suffix(".*") {
+        let matches_any_suffix = match Self::group_alternation(&self.src).strip_suffix(".*") {
             Some(rest) => rest.chars().rev().take_while(|c| *c == '\\').count() % 2 == 0,
             None => false,
         };
@@ -296,7 +320,9 @@ impl Add<Pattern> for Pattern {
     type Output = Pattern;
 
     fn add(self, rhs: Pattern) -> Self::Output {
-        Pattern::regex((self.to_string() + &rhs.to_string()).as_str()).unwrap()
+        let lhs = Pattern::group_alternation(&self.src);
+        let rhs = Pattern::group_alternation(&rhs.src);
+        Pattern::regex((lhs + &rhs).as_str()).unwrap()
     }
 }
 
